@@ -80,6 +80,12 @@ func c07Gen(rng *verifsim.RNG, idx int, tier string) *Plan {
 		p.Class = "flap"
 		p.Actions = append(p.Actions, Action{At: int64(rng.Dur(time.Second, horizon)) + jitter(rng), Kind: "link", If: "eth0", Oper: "down"})
 	}
+	if rng.Bool(0.2) {
+		// some receives are slow to return after the packet arrived (the delay
+		// window of a solicitation starts when the daemon gets it)
+		p.Faults = append(p.Faults, Fault{Seam: "read.post", From: int64(rng.Dur(0, horizon)), Count: rng.Range(1, 5), Lat: int64(rng.Dur(time.Millisecond, 800*time.Millisecond))})
+		p.Class += "+slow-receive"
+	}
 	p.Horizon = int64(horizon)
 	if rng.Bool(0.5) {
 		p.Stop = []string{"SIGTERM", "SIGHUP"}[rng.Intn(2)]
@@ -106,7 +112,9 @@ func c07Oracle(info *runInfo, res *verifsim.Result) {
 
 func c07Iface(info *runInfo, res *verifsim.Result, h *history, spec *IfaceSpec) {
 	ifn := spec.Name
-	exact := info.plan.Class == "exact" || info.plan.Class == "flap"
+	base := strings.TrimSuffix(strings.TrimSuffix(info.plan.Class, "+2if"), "+slow-receive")
+	base = strings.TrimSuffix(base, "+2if")
+	exact := base == "exact" || base == "flap"
 	stopT, _, _ := stopInstant(h, 0)
 	taskG := 0
 	for i := range h.ev {
@@ -127,6 +135,9 @@ func c07Iface(info *runInfo, res *verifsim.Result, h *history, spec *IfaceSpec) 
 		}
 		if stopT != 0 && stopT < end {
 			end = stopT
+		}
+		if g.doomT != 0 && g.doomT < end {
+			end = g.doomT // re-initialisation was triggered then
 		}
 		// a transmit error ends the generation as soon as the scheduler hears of it
 		for _, w := range g.writes {
